@@ -68,6 +68,7 @@ pub fn get(prop: &str, tier: &str) -> Option<Check> {
                 Batch { name: "client_encoding", f: scen::client::run_encoding, cfg: cfg(Mode::LockStep, false, 0), runs: n(60_000, 2_000_000), real: REAL_CLIENT_TCP, stub: STUB_CLIENT_TCP },
                 Batch { name: "client_encoding_small_window", f: scen::client::run_encoding, cfg: cfg(Mode::LockStep, true, 0), runs: n(20_000, 500_000), real: REAL_CLIENT_TCP, stub: STUB_CLIENT_TCP },
                 Batch { name: "client_lockstep", f: scen::client::run_lockstep, cfg: cfg(Mode::LockStep, false, 0), runs: n(30_000, 500_000), real: REAL_CLIENT_TCP, stub: STUB_CLIENT_TCP },
+                Batch { name: "client_encoding_rtu", f: scen::client::run_encoding_rtu, cfg: cfg(Mode::LockStep, false, 0), runs: n(40_000, 1_500_000), real: REAL_CLIENT_RTU, stub: STUB_CLIENT_RTU },
             ],
             assumptions: vec!["the 2^32 AddressRange::try_from arguments are sampled on a boundary lattice, not enumerated (pure function)"],
         },
@@ -102,6 +103,9 @@ pub fn get(prop: &str, tier: &str) -> Option<Check> {
                 batches.push(Batch { name: "client_racy", f: scen::racy::run_client_racy, cfg: cfg(Mode::Racy, false, 0), runs: n(60_000, 2_000_000), real: REAL_CLIENT_TCP, stub: STUB_CLIENT_TCP });
                 batches.push(Batch { name: "client_racy_faults", f: scen::racy::run_client_racy, cfg: cfg(Mode::Racy, true, 0), runs: n(60_000, 2_000_000), real: REAL_CLIENT_TCP, stub: STUB_CLIENT_TCP });
             }
+            if p == "C14" {
+                batches.push(Batch { name: "retry_strategy_object", f: scen::client::run_retry_object, cfg: cfg(Mode::LockStep, false, 0), runs: n(50_000, 1_000_000), real: "rodbus doubling_retry_strategy (Doubling)", stub: "none (pure state machine, no simulation involved)" });
+            }
             if p == "C10" {
                 batches.push(Batch { name: "ffi_client", f: scen::ffi::run_client, cfg: cfg(Mode::LockStep, false, 0), runs: n(10_000, 300_000), real: REAL_FFI, stub: STUB_FFI });
             }
@@ -117,6 +121,7 @@ pub fn get(prop: &str, tier: &str) -> Option<Check> {
                 Batch { name: "rtu_server_model", f: scen::rtu::run_server_model, cfg: cfg(Mode::LockStep, false, 0), runs: n(80_000, 2_000_000), real: REAL_SERVER_RTU, stub: STUB_SERVER_RTU },
                 Batch { name: "rtu_server_model_faults", f: scen::rtu::run_server_model, cfg: cfg(Mode::LockStep, true, 0), runs: n(30_000, 800_000), real: REAL_SERVER_RTU, stub: STUB_SERVER_RTU },
                 Batch { name: "client_lockstep_rtu", f: scen::client::run_lockstep_rtu, cfg: cfg(Mode::LockStep, false, 0), runs: n(40_000, 1_000_000), real: REAL_CLIENT_RTU, stub: STUB_CLIENT_RTU },
+                Batch { name: "client_encoding_rtu", f: scen::client::run_encoding_rtu, cfg: cfg(Mode::LockStep, false, 0), runs: n(20_000, 500_000), real: REAL_CLIENT_RTU, stub: STUB_CLIENT_RTU },
             ],
             assumptions: vec!["line model: bytes written while the port is closed are lost (UART)", "what a mis-framed parser consumes before failing is not specified: the session is reset"],
         },
